@@ -703,3 +703,393 @@ def clobber_check(ev):
             if own is not None and current.get(t) != own:
                 out.append(Violation('C06', 'temp/clobbered-while-live', True, t))
     return out
+
+
+# =====================================================================================================
+# program-level oracles
+
+PROLOGUE_MARK = '__PROLOGUE__'
+
+
+def is_prologue_stmt(s):
+    """one of the two marker statements the harness uses as Config.file_prefix_code (`;__PROLOGUE__;`)"""
+    if not isinstance(s, dict) or is_lazy(s):
+        return False
+    if s.get('_t') == 'ModuleItem':
+        if s.get('_v') != 'Stmt':
+            return False
+        s = s['_0']
+        if is_lazy(s):
+            return False
+    if s.get('_v') == 'Empty':
+        sp = s['_0']['span']
+        return sp['lo']['0'] == 7000
+    if s.get('_v') == 'Expr':
+        e = s['_0']['expr']
+        return kind(e) == 'Ident' and ceq(payload(e)['sym'], PROLOGUE_MARK)
+    return False
+
+
+def program_body(v):
+    return v['_0']['body']
+
+
+def strip_prologue(prog_view):
+    p = dict(prog_view)
+    inner = dict(p['_0'])
+    body = inner['body']
+    if not is_lazy(body):
+        inner['body'] = [s for s in body if not is_prologue_stmt(s)]
+    p['_0'] = inner
+    return p
+
+
+def check_C02_program(in_view, er, erased):
+    return check_C02(in_view, er, strip_prologue(erased))
+
+
+def stmt_of(item):
+    """ModuleItem | Stmt view -> Stmt view (or None for module declarations)"""
+    if is_lazy(item):
+        return item
+    if item.get('_t') == 'ModuleItem':
+        return item['_0'] if item.get('_v') == 'Stmt' else None
+    return item
+
+
+def is_directive(s):
+    s = stmt_of(s)
+    if s is None or is_lazy(s) or s.get('_v') != 'Expr':
+        return False
+    e = s['_0']['expr']
+    return kind(e) == 'Lit' and not is_lazy(payload(e)) and payload(e).get('_v') == 'Str'
+
+
+def bodies(v, acc, key='program'):
+    """collect directive-bearing bodies: program body and every function / arrow block body, keyed by span"""
+    if isinstance(v, (list, tuple)):
+        for x in v:
+            bodies(x, acc)
+        return
+    if not isinstance(v, dict) or is_lazy(v):
+        return
+    t = v.get('_t')
+    if t == 'Program':
+        acc['program'] = ('program', program_body(v))
+    elif t == 'Function':
+        b = v['body']
+        if b is not None and not is_lazy(b):
+            acc[span_key(b['span'])] = ('function', b['stmts'])
+    elif t == 'ArrowExpr':
+        b = v['body']
+        if not is_lazy(b) and b.get('_v') == 'BlockStmt' and not span_is_dummy(b['_0']['span']):
+            acc[span_key(b['_0']['span'])] = ('arrow', b['_0']['stmts'])
+    elif t == 'Constructor':
+        b = v['body']
+        if b is not None and not is_lazy(b):
+            acc[span_key(b['span'])] = ('constructor', b['stmts'])
+    for x in v.values():
+        bodies(x, acc)
+
+
+def span_key(sp):
+    return (str(sp['lo']['0']), str(sp['hi']['0']))
+
+
+def check_C07(in_view, out_view):
+    """leading directives of the program and of every function body stay leading directives"""
+    out = []
+    bi, bo = {}, {}
+    bodies(in_view, bi)
+    bodies(out_view, bo)
+    for k, (what, ostmts) in bo.items():
+        if k not in bi or is_lazy(ostmts) or is_lazy(bi[k][1]):
+            continue
+        istmts = bi[k][1]
+        nd = 0
+        while nd < len(istmts) and is_directive(istmts[nd]):
+            nd += 1
+        if nd == 0:
+            continue
+        for i in range(nd):
+            if i >= len(ostmts):
+                out.append(Violation('C07', 'directive/lost:%s' % what, True, 'body has %d statements, %d directives expected' % (len(ostmts), nd)))
+                break
+            o = ostmts[i]
+            c = tree_eq(stmt_of(istmts[i]), stmt_of(o)) if stmt_of(o) is not None else False
+            if c is not True:
+                so = stmt_of(o)
+                if so is not None and is_injected_let(so) is not None:
+                    inj = 'let'
+                elif is_prologue_stmt(o):
+                    inj = 'prologue'
+                else:
+                    inj = 'other'
+                out.append(Violation('C07', 'directive/displaced-by-%s:%s:position-%d-of-%d' % (inj, what, i, nd), neg(c), 'statement %d of the %s body is no longer the original directive' % (i, what)))
+                break
+    return out
+
+
+def check_C12_program(in_view, out_view, status_view):
+    out = []
+    st = ['Modified', 'NotModified', 'Cancelled'][status_view['status']['_d']]
+    body = program_body(out_view)
+    if is_lazy(body):
+        return out
+    npro = len([s for s in body if is_prologue_stmt(s)])
+    if st == 'NotModified' and npro != 0:
+        out.append(Violation('C12', 'prologue/in-unmodified-file', True, ''))
+    if st == 'Modified' and npro != 2:
+        out.append(Violation('C12', 'prologue/missing-or-duplicated', True, '%d prologue statements' % npro))
+    return out
+
+
+# ------------------------------------------------------------------ C06: scope of temporaries
+
+def check_C06_program(out_view, prefix='test'):
+    """every injected temporary is declared by an injected `let` of an enclosing block of the *same activation*,
+    and within one statement is assigned before read and not clobbered while live"""
+    out = []
+    seen = set()
+
+    def add(role, detail):
+        if (role, detail) not in seen:
+            seen.add((role, detail))
+            out.append(Violation('C06', role, True, detail))
+
+    def walk(v, scopes, ctxname):
+        # scopes: list of ('block', set(names)) / ('boundary', kind)
+        if isinstance(v, (list, tuple)):
+            for x in v:
+                walk(x, scopes, ctxname)
+            return
+        if not isinstance(v, dict) or is_lazy(v):
+            return
+        t = v.get('_t')
+        if t == 'Expr' and is_temp_ident(v):
+            use(temp_name(v), scopes)
+            return
+        if t == 'BindingIdent':
+            ident = v['id']
+            if span_is_dummy(ident['span']) and sym_is_temp(ident['sym']):
+                s = ident['sym']
+                use(s if isinstance(s, str) else str(s), scopes, declaring=True)
+            return
+        if t == 'BlockStmt':
+            names = set()
+            st = v['stmts']
+            if not is_lazy(st):
+                for s in st[:4]:
+                    n = is_injected_let(s)
+                    if n is not None:
+                        names.update(n)
+                new = scopes + [('block', names)]
+                for s in st:
+                    if is_injected_let(s) is not None:
+                        continue
+                    walk(s, new, ctxname)
+                    for vio in stmt_temp_order(s):
+                        add(vio.role, vio.detail)
+            return
+        if t == 'Function':
+            # parameters (and their defaults) and the body belong to the callee's activation
+            walk(v['params'], scopes + [('boundary', 'function-parameter')], ctxname)
+            walk(v['body'], scopes + [('boundary', 'function-body')], ctxname)
+            return
+        if t == 'ArrowExpr':
+            walk(v['params'], scopes + [('boundary', 'arrow-parameter')], ctxname)
+            walk(v['body'], scopes + [('boundary', 'arrow-body')], ctxname)
+            return
+        if t == 'ClassProp':
+            walk(v['key'], scopes, ctxname)
+            walk(v['value'], scopes + [('boundary', 'class-field-initialiser')], ctxname)
+            return
+        if t == 'StaticBlock':
+            walk(v['body'], scopes + [('boundary', 'class-static-block')], ctxname)
+            return
+        for x in v.values():
+            walk(x, scopes, ctxname)
+
+    def use(name, scopes, declaring=False):
+        boundary = None
+        for sc in reversed(scopes):
+            if sc[0] == 'boundary':
+                if boundary is None:
+                    boundary = sc[1]
+                continue
+            if name in sc[1]:
+                if boundary is not None and not declaring:
+                    add('temp/declared-outside-activation:' + boundary, name)
+                return
+        if not declaring:
+            add('temp/undeclared', name)
+
+    walk(out_view, [], 'program')
+    return out
+
+
+def stmt_temp_order(stmt):
+    ev = []
+    temp_events(stmt, ev)
+    out = []
+    assigned = set()
+    for e in ev:
+        if e[0] == 'assign':
+            assigned.add(e[1])
+        elif e[0] == 'read' and e[1] not in assigned:
+            out.append(Violation('C06', 'temp/read-before-assign', True, e[1]))
+    out.extend(clobber_check(ev))
+    return out
+
+
+# ------------------------------------------------------------------ C04: completeness of instrumentation
+
+def z_or(cs):
+    cs = [c for c in cs if c is not False]
+    if any(c is True for c in cs):
+        return True
+    if not cs:
+        return False
+    return cs[0] if len(cs) == 1 else z3.Or(cs)
+
+
+def operator_enabled(cfg_terms, name):
+    alts = []
+    for (src, dst, op, awc) in cfg_terms:
+        alts.append(conj([leaf_eq(src, name), leaf_eq(op, True)]))
+    return z_or(alts)
+
+
+def method_configured(cfg_terms, name_term):
+    alts = []
+    for (src, dst, op, awc) in cfg_terms:
+        alts.append(conj([leaf_eq(src, name_term), leaf_eq(op, False)]))
+    return z_or(alts)
+
+
+def lit_only(e):
+    """literal or literal-only sum (structural; the `+` test of a symbolic operator is returned as a condition)"""
+    if is_lazy(e):
+        return False
+    if kind(e) == 'Lit':
+        return True
+    if kind(e) == 'Bin':
+        p = payload(e)
+        l, r = lit_only(p['left']), lit_only(p['right'])
+        if l is False or r is False:
+            return False
+        return conj([leaf_eq(p['op']['_d'], ADD), l, r])
+    return False
+
+
+RECEIVER_KINDS = ('Ident', 'Member', 'Call', 'Paren', 'Array')
+STMT_OWNERS = ('IfStmt', 'WhileStmt', 'DoWhileStmt', 'ForStmt', 'ForInStmt', 'ForOfStmt', 'LabeledStmt', 'SwitchCase', 'TryStmt', 'CatchClause')
+LITERAL_CALLERS = ('concat', 'replace', 'replaceAll', 'padEnd', 'padStart', 'repeat')
+
+
+def check_C04(in_view, out_view, er, erased, cfg_terms):
+    """every enabled operation in an instrumentable position of the input has its hook in the output"""
+    out = []
+    hooked = set()
+    for h in er.hooks:
+        R = h['R']
+        if kind(R) in ('Bin', 'Tpl', 'Call'):
+            hooked.add(span_key(payload(R)['span']))
+    plus_on = operator_enabled(cfg_terms, 'plusOperator')
+    tpl_on = operator_enabled(cfg_terms, 'tplOperator')
+    seen = set()
+
+    def need(cond, role, sp, detail):
+        if cond is False:
+            return
+        if span_key(sp) in hooked:
+            return
+        if role in seen:
+            return
+        seen.add(role)
+        out.append(Violation('C04', role, cond, detail))
+
+    def walk(v, c, where):
+        # c: dict(in_block, excluded)
+        if isinstance(v, (list, tuple)):
+            for x in v:
+                walk(x, c, where)
+            return
+        if not isinstance(v, dict) or is_lazy(v):
+            return
+        t = v.get('_t')
+        if t == 'BlockStmt':
+            c = dict(c, in_block=True)
+        if t == 'ArrowExpr':
+            walk(v['params'], dict(c, excluded='arrow-param'), 'ArrowExpr.params')
+            walk(v['body'], c, 'ArrowExpr.body')
+            return
+        if t == 'Expr':
+            k = kind(v)
+            p = payload(v)
+            if c['in_block'] and not c.get('excluded'):
+                if k == 'Bin':
+                    nonlit = neg(conj([lit_only(p['left']), lit_only(p['right'])]))
+                    need(conj([plus_on, leaf_eq(p['op']['_d'], ADD), nonlit]), 'uninstrumented:+:%s' % where, p['span'], 'binary + at %s is not wrapped by its hook' % where)
+                elif k == 'Assign':
+                    tgt = p['left']
+                    simple = (not is_lazy(tgt)) and tgt.get('_v') == 'Simple'
+                    if simple:
+                        need(conj([plus_on, leaf_eq(p['op']['_d'], ADD_ASSIGN)]), 'uninstrumented:+=:%s' % where, p['span'], '+= at %s is not wrapped by its hook' % where)
+                elif k == 'Tpl':
+                    ex = p['exprs']
+                    if not is_lazy(ex) and len(ex) >= 1 and all((not is_lazy(x)) and kind(x) != 'Lit' for x in ex):
+                        need(tpl_on, 'uninstrumented:tpl:%s' % where, p['span'], 'template at %s is not wrapped by its hook' % where)
+                elif k == 'Call':
+                    cal = p['callee']
+                    if not is_lazy(cal) and cal.get('_v') == 'Expr' and kind(cal['_0']) == 'Member':
+                        m = payload(cal['_0'])
+                        prop = m['prop']
+                        obj = m['obj']
+                        if not is_lazy(prop) and prop.get('_v') == 'Ident' and not is_lazy(obj):
+                            name = prop['_0']['sym']
+                            ok_recv = kind(obj) in RECEIVER_KINDS
+                            if kind(obj) == 'Member':
+                                op_ = payload(obj)['prop']
+                                if not is_lazy(op_) and op_.get('_v') == 'Ident':
+                                    # X.prototype.m(...) is excluded; X.prototype.m.call/apply handled by the prototype rule (not claimed here)
+                                    isproto = leaf_eq(op_['_0']['sym'], 'prototype')
+                                    ok_recv = neg(isproto)
+                            notcallapply = conj([neg(leaf_eq(name, 'call')), neg(leaf_eq(name, 'apply'))]) if kind(obj) == 'Member' else True
+                            if ok_recv is not False:
+                                need(conj([method_configured(cfg_terms, name), ok_recv, notcallapply]), 'uninstrumented:method:%s' % where, p['span'], 'configured method call at %s is not wrapped by its hook' % where)
+            if k == 'Unary':
+                isdel = leaf_eq(p['op']['_d'], 6)
+                if isdel is True:
+                    walk(p['arg'], dict(c, excluded='delete'), 'UnaryExpr.arg')
+                    return
+                if isdel is not False:
+                    # symbolic operator: children are only required when it is not delete -> handled by making the need conditional
+                    walk(p['arg'], dict(c, excluded='maybe-delete'), 'UnaryExpr.arg')
+                    return
+            if k == 'Tpl':
+                ex = p['exprs']
+                if not is_lazy(ex) and any((not is_lazy(x)) and kind(x) == 'Lit' for x in ex):
+                    walk(ex, dict(c, excluded='tpl-with-literal'), 'Tpl.exprs')
+                    return
+            if k == 'TaggedTpl':
+                walk(p['tag'], c, 'TaggedTpl.tag')
+                walk(p['tpl'], dict(c, excluded='tagged-template'), 'TaggedTpl.tpl')
+                return
+            if k == 'OptChain':
+                walk(p, dict(c, excluded='optional-chain'), 'OptChain')
+                return
+        for fk, x in v.items():
+            if fk == '_0':
+                walk(x, c, where)
+            elif fk.startswith('_') or fk == 'span':
+                continue
+            else:
+                if '_v' in v:
+                    walk(x, c, where)
+                else:
+                    prev = where.split('>')[-1]
+                    walk(x, c, ('%s>%s.%s' % (prev, t, fk)) if prev not in ('program',) and prev.split('.')[0] in STMT_OWNERS else '%s.%s' % (t, fk))
+
+    walk(in_view, {'in_block': False, 'excluded': None}, 'program')
+    return out
